@@ -16,8 +16,14 @@ const geometryPath = "github.com/EliCDavis/polyform/math/geometry"
 // floor(min·cubesPerUnit) − p and the upper bound ceil(max·cubesPerUnit) + p with
 // p ≥ 1, on each of the three axes: one cell of padding on each side, so the
 // sign change at the domain boundary is always inside the sampled grid.
-func padRule(c *props.Ctx, p *c09path) {
+func padRule(c *props.Ctx, p *c09path, sites []*site) {
 	n := 0
+	type padStore struct {
+		side string
+		axis int
+		val  ssa.Value
+	}
+	padStores := map[*ssa.Function][]padStore{}
 	for _, fn := range p.order {
 		if fn == p.index {
 			continue
@@ -81,10 +87,105 @@ func padRule(c *props.Ctx, p *c09path) {
 				c.R.Violate("PAD-1", key, pos, fmt.Sprintf("the upper grid bound on %s is ceil(max)%+d: no padding cell above the domain (the bound is exclusive), a shape touching the domain boundary is left open there", f.Name(), a.Off))
 			default:
 				c.R.Hold("PAD-1", key, pos, fmt.Sprintf("%s bound %s = %s(domain.%s()·cubesPerUnit)%+d", kind, f.Name(), obj.Name(), side, a.Off))
+				padStores[fn] = append(padStores[fn], padStore{side, int(f.Name()[0] - 'X'), st.Val})
 			}
 		})
 	}
 	c.R.Extra["pad_bounds"] = n
+	// PAD-2: a site that computes its own padded bounds and samples the field itself (no block storage) runs its
+	// cell loops from the lower bound to upper−1 exclusive, so that with corner offsets {0,1} the samples cover
+	// [lower, upper) — the same coverage the canvas path gets from RANGE-1
+	for _, s := range sites {
+		if s == nil || s.ctl || s.P == nil || s.D != nil || len(padStores[s.fn]) == 0 {
+			continue
+		}
+		roots, ok := s.cellRoots()
+		if !ok {
+			c.R.Undecide("PAD-2", s.name+"#cellLoops", c.P.Pos(s.fn.Pos()), "the cell coordinates of a self-sampling site were not recognised")
+			continue
+		}
+		e := s.root()
+		for a := 0; a < 3; a++ {
+			key := fmt.Sprintf("%s#cellLoop%c", s.name, "XYZ"[a])
+			phi, ok := roots[a].V.(*ssa.Phi)
+			if !ok || roots[a].F >= 0 {
+				c.R.Undecide("PAD-2", key, c.P.Pos(s.fn.Pos()), "a cell coordinate is not a loop variable")
+				continue
+			}
+			init, bound, ok := countedLoop(e, phi)
+			if !ok {
+				c.R.Undecide("PAD-2", key, c.P.Pos(phi.Pos()), "the loop of a cell coordinate is not a counted loop")
+				continue
+			}
+			var lo, hi *lin
+			for _, ps := range padStores[s.fn] {
+				if ps.axis != a {
+					continue
+				}
+				l := e.lin(ps.val)
+				if ps.side == "Min" {
+					lo = &l
+				} else {
+					hi = &l
+				}
+			}
+			if lo == nil || hi == nil {
+				c.R.Undecide("PAD-2", key, c.P.Pos(phi.Pos()), "padded bounds of this axis not found in the same function")
+				continue
+			}
+			wantHi := *hi
+			wantHi.Off--
+			// starting earlier / stopping later than needed only samples more padding
+			dLo := lo.addScaled(init, -1)
+			dHi := bound.addScaled(wantHi, -1)
+			switch {
+			case dLo.isConst() && dLo.Off >= 0 && dHi.isConst() && dHi.Off >= 0:
+				c.R.Hold("PAD-2", key, c.P.Pos(phi.Pos()), fmt.Sprintf("%c ∈ [lower%+d, upper−1%+d): samples cover [lower, upper)", "xyz"[a], -dLo.Off, dHi.Off))
+			case !sameLin(init, *lo):
+				c.R.Violate("PAD-2", key, c.P.Pos(phi.Pos()), fmt.Sprintf("the %c cell loop starts at %s, the padded lower bound is %s", "xyz"[a], init, *lo))
+			case !sameLin(bound, wantHi):
+				c.R.Violate("PAD-2", key, c.P.Pos(phi.Pos()), fmt.Sprintf("the %c cell loop stops before %s; with corner offsets {0,1} it must stop before upper−1 = %s to sample the padding cell above the domain", "xyz"[a], bound, wantHi))
+			default:
+				c.R.Hold("PAD-2", key, c.P.Pos(phi.Pos()), fmt.Sprintf("%c ∈ [lower, upper−1): samples cover [lower, upper)", "xyz"[a]))
+			}
+		}
+	}
+}
+
+// cellRoots: the three loop variables the corner positions are built from.
+func (s *site) cellRoots() ([3]baseKey, bool) {
+	var out [3]baseKey
+	e := s.root()
+	vals := e.slotVals(s.P, 0)
+	if len(vals) != 1 {
+		return out, false
+	}
+	d := s.evalVec(vals[0].ev(e), vals[0].val)
+	if !d.comps {
+		v := d.vbase
+		for depth := 0; depth < 4 && v != nil; depth++ {
+			call, ok := v.(*ssa.Call)
+			if !ok {
+				break
+			}
+			if isVec3Method(call, "Scale") || isVec3Method(call, "DivByConstant") || isVec3Method(call, "MultByConstant") {
+				v = call.Call.Args[0]
+				continue
+			}
+			break
+		}
+		d = s.evalVec(e, v)
+		if !d.comps {
+			return out, false
+		}
+	}
+	for a := 0; a < 3; a++ {
+		if d.comp[a].isConst() || d.comp[a].Coef != 1 {
+			return out, false
+		}
+		out[a] = d.comp[a].Base
+	}
+	return out, true
 }
 
 func isVectorIntField(n string) bool { return n == "X" || n == "Y" || n == "Z" }
